@@ -122,7 +122,15 @@ def render(case, P):
         if kind == "root":
             lines.append("root")
         elif kind == "inode":
-            lines.append("inode %d" % (rnd_ref if bad else allr[a % len(allr)]))
+            if bad and c % 3 == 1:
+                # a real metadata block, offset beyond its unpacked size: the lookup fails after the block was loaded
+                ref = (P["blocks"][a % len(P["blocks"])] << 16) | (8192 + b % 50000)
+            elif bad and c % 3 == 2:
+                # a real metadata block, offset inside it but not at an inode
+                ref = (P["blocks"][a % len(P["blocks"])] << 16) | (b % 8192)
+            else:
+                ref = rnd_ref if bad else allr[a % len(allr)]
+            lines.append("inode %d" % ref)
         elif kind == "lsdir":
             lines.append("lsdir %d" % (rnd_ref if bad else (dirs[a % len(dirs)] if inv != 1 else allr[a % len(allr)])))
         elif kind == "lspart":
